@@ -40,6 +40,9 @@ func VerifT3Replay() {
 	case "tokens":
 		verifT3Tokens()
 		return
+	case "structopts":
+		verifT3StructOptions()
+		return
 	case "mapkey":
 		text = `{"` + strconv.FormatUint(v.Uint64("integer"), 10) + `":1}`
 	case "double":
@@ -351,5 +354,32 @@ func verifT3Tokens() {
 	v.Assert((e1 == nil) == (e2 == nil), fmt.Sprintf("sonic and encoding/json disagree on accepting %q into struct{A int8; B bool}: sonic err=%v, encoding/json err=%v", text, e1, e2))
 	if e1 == nil && e2 == nil {
 		v.Assert(s1 == s2, fmt.Sprintf("decoded values differ for %q: %+v vs %+v", text, s1, s2))
+	}
+}
+
+// verifT3StructOptions: DisallowUnknownFields x CaseSensitive on documents with exact, wrong-case
+// and unknown keys, decoded into struct{A int8; B bool}: an error is returned exactly when
+// DisallowUnknownFields is set and some key matches no field under the matching rule in force
+// (exact; or case-insensitive unless CaseSensitive).
+func verifT3StructOptions() {
+	_ = v.Uint64("flags")
+	type doc struct {
+		text                  string
+		hasUnknown, wrongCase bool
+	}
+	docs := []doc{
+		{`{"A":1}`, false, false}, {`{"a":1}`, false, true}, {`{"zzz":1}`, true, false},
+		{`{"A":1,"zzz":true}`, true, false}, {`{"A":1,"b":true}`, false, true}, {`{"A":1,"B":true}`, false, false},
+	}
+	for _, du := range []bool{false, true} {
+		for _, cs := range []bool{false, true} {
+			api := Config{DisallowUnknownFields: du, CaseSensitive: cs}.Froze()
+			for _, d := range docs {
+				var s1 verifS1
+				err := api.UnmarshalFromString(d.text, &s1)
+				wantErr := du && (d.hasUnknown || (cs && d.wrongCase))
+				v.Assert((err != nil) == wantErr, fmt.Sprintf("DisallowUnknownFields=%v CaseSensitive=%v: decoding %s into struct{A int8; B bool} gives err=%v, documented behaviour: error=%v", du, cs, d.text, err, wantErr))
+			}
+		}
 	}
 }
